@@ -58,6 +58,7 @@ func c20(c *Ctx) {
 	c20writtenListDecides(c)
 	c20emptyChildLines(c)
 	c20closingTokenOwnLine(c)
+	c20noCrossLineRewrites(c)
 }
 
 // nodeish: *TokenNode, a type with a Format method from package ast, an interface of package ast, or a slice of those.
